@@ -50,6 +50,6 @@ def generate(rng, tier):
     return cases
 
 LEVEL_TEXT = ('Kernel-checked theorems about the model: Angle::new(k, 2.0) is exactly {blade k, remainder 0} for every integer 0 <= k < 2^53 (hence create_dimension); an explicit blade offset n < 2^53 adds exactly n quarter turns and leaves the remainder untouched; '
-              'scalar(v) is |v| at blade 0 (v >= 0 incl. -0.0) or blade 2; on the general path (repaired defect F2) the result holds exactly k = floor(t/q) quarter turns with the exact remainder t - kq, or the 1e-10 snap fired (k+1, remainder 0), for every finite lifted total 0 < t <= 2^43, '
+              'scalar(v) is |v| at blade 0 (v >= 0 incl. -0.0) or blade 2; on the general path (repaired defect F2) the result holds exactly k = floor(t/q) quarter turns with the exact remainder t - kq, or the 1e-10 snap fired (k+1, remainder 0), for every finite lifted total 0 < t <= 2^43; negative quarter turns -2^50 < d < 0 written with divisor 2 land exactly on d + 4*floor((6-d)/4) blades (3..6 above d, remainder 0), '
               'so the library total equals t within 1e-10 + 2^-52. The relation of t to the REAL p*pi/d, the negative-angle congruence and the Cartesian constructors are decided against mpmath (S3).')
 LEVEL_NOTE = ('Partial for the real-pi and atan2 legs. Trusted: Coq kernel + vm_compute; 4 standard-library axioms; hand-written model validated bit-for-bit each run; harness/emitter/predicates.')
